@@ -10,7 +10,7 @@ NOTES = 'Exit codes of ./check: 0 all obligations discharged; 1 VIOLATION (defin
 PENDING = 'check not built yet in this session (planned in DESIGN.md section 5)'
 NOT_APPLICABLE = {
     'C02': PENDING, 'C03': PENDING, 'C06': PENDING, 
-    'C09': PENDING, 'C10': PENDING, 'C14': PENDING, 'C15': PENDING, 'C16': PENDING, 'C18': PENDING,
+    'C14': PENDING, 'C15': PENDING, 'C16': PENDING, 'C18': PENDING,
     'C11': 'numerical accuracy of a 1000-bin f32 convolution against an exact enumeration over K^M words: floats are uninterpreted in Verus and the convolution is out of reach of CBMC; no contract within reach expresses or decides it (DESIGN.md 5/C11)',
     'C12': 'HashMap<i64,f64> dynamic programming bounded by exact tail probabilities of the true score distribution: a protocol-level real-number argument (TFM-PVALUE paper), not expressible over the real code with Verus (opaque floats, no HashMap iteration specs) or Kani (unbounded loops over float maps) (DESIGN.md 5/C12)',
     'C13': 'same algorithm and obstacle as C12 (score thresholds from the same f64 HashMap recurrences) (DESIGN.md 5/C13)',
@@ -18,6 +18,18 @@ NOT_APPLICABLE = {
 }
 
 CHECKS = {
+    'C10': {
+        'text': 'Unbounded deductive proof (Verus) on the verbatim bodies of {Count,Frequency,Weight,Scoring}Matrix::reverse_complement (out[i][k] == m[M-1-i][comp(k)], metadata preserved), plus machine-checked lemmas: rc(rc(M)) == M and the strand lemma (addend j of score(rc M, rc s, L-M-i) is addend M-1-j of score(M, s, i), i.e. equality up to summation order). Complement table facts by a complete Kani harness over the 5 nucleotides.',
+        'design_ref': 'DESIGN.md section 5, C10',
+        'note': 'Trusted: Verus/Z3, Kani; extraction rules R3 (rev+enumerate), R4 (for &s in slice). Not claimed: commutation with the count->frequency->score conversions (permuted f32 row sums), Python binding.',
+        'technique': 'contract-based deductive verification (Verus) + lemmas + complete Kani table harness',
+    },
+    'C09': {
+        'text': 'Partial: unbounded deductive proof (Verus) of CountMatrix::from_sequences on its verbatim body (count matrix holds exactly the per-position occurrence counts; Err exactly when lengths differ). The frequency/weight/log-odds conversions, min/max score bounds and Background validation are written with iterator adapters and float numerics that neither installed verifier can bring under contract; they are listed as not covered rather than claimed.',
+        'design_ref': 'DESIGN.md section 5, C09',
+        'note': 'Trusted: Verus/Z3; S1 instantiation of the generic iterator parameter; extraction rules R1, R4, T1. The float clauses of C09 (rows sum to one, weight = freq/background, log, min/max score bounds, rejection of invalid backgrounds) are NOT decided by this check.',
+        'technique': 'contract-based deductive verification (Verus, real body extracted per run)',
+    },
     'C05': {
         'text': 'Unbounded deductive proof (Verus) of Encode::{encode_into, encode_raw, encode} (default impls) on verbatim bodies for every alphabet and every byte string: success iff every byte is valid, result symbol i is the symbol of byte i, failure reports the first offending byte. The per-byte table facts (from_ascii/as_ascii/as_index for Nucleotide and AminoAcid) are discharged by loop-free Kani harnesses over all 256 bytes (complete). SSE2/AVX2 encoders: bounded Kani stand-ins (thorough tier) only.',
         'design_ref': 'DESIGN.md section 5, C05',
